@@ -49,6 +49,7 @@ func init() {
 	extendProp("C19", "(R19.10) ProgressingRolloutFinalizer builds the finalizer from the whole Rollout name (no truncation, trimming or hashing): distinct Rollouts sharing a TrafficRouting hold distinct finalizers.", r6C19)
 	extendProp("C12", "(R12.10) IsCompletedPod answers false only for a phase that is neither Failed nor Succeeded; (R12.11) ListOwnedPods keeps a pod only under IsOwnedBy(...) == true evaluated for that pod.", r6C12)
 	extendProp("C08", "(R8.12) util.EqualIgnoreHash — the 'did the pod template change' test of all four admission handlers — answers true only as the outcome of a deep comparison; R8.8 now accepts 'template unchanged' as a reason to skip only where no rollout-id is configured.", r7C08)
+	extendProp("C09", "(R9.9) every write into an `.Annotations` map in the controllers, the workload webhook and the conversion functions is preceded on every path by a nil test of an annotations map or by a fresh map being stored.", r7C09)
 	extendProp("C08", "(R8.10) both admission handlers answer 'this workload is not selected by the webhook configuration' only after every entry and rule was examined (or the entry's selector cannot be parsed): the first entry whose rule matches does not decide alone.", r6C08)
 }
 
@@ -1325,4 +1326,118 @@ func r7C08(c *Ctx) {
 	}
 	c.Ob("R8.12", "EqualIgnoreHash#equal-means-compared", fn.Pos(), n > 0 && bad == "", "true is the outcome of a deep comparison (hash label removed)",
 		ifs(bad != "", bad+": a pod-template-hash label is user text in the webhook's view — two different templates carrying the same value are taken for one revision and the release change is admitted unheld")+ifs(n == 0, "no result found"))
+}
+
+// ---------------------------------------------------------------- C09 R9.9 (round 7)
+
+func r7C09(c *Ctx) {
+	p := c.Prog
+	c.Rule("R9.9", "no write into an annotations map that may be nil", 10)
+	isAnnoField := func(v ssa.Value) (*ssa.FieldAddr, bool) {
+		u, ok := v.(*ssa.UnOp)
+		if !ok || u.Op != token.MUL {
+			return nil, false
+		}
+		fa, ok := u.X.(*ssa.FieldAddr)
+		if !ok {
+			return nil, false
+		}
+		n, _ := FieldOf(fa)
+		return fa, n == "Annotations"
+	}
+	for _, fn := range p.RepoFuncs() {
+		name := FuncName(fn)
+		if !(strings.HasPrefix(name, "pkg/controller/") || strings.HasPrefix(name, "pkg/webhook/workload/") || strings.HasPrefix(name, "api/v1alpha1.")) {
+			continue
+		}
+		for _, b := range fn.Blocks {
+			for _, in := range b.Instrs {
+				mu, ok := in.(*ssa.MapUpdate)
+				if !ok {
+					continue
+				}
+				if _, isAnno := isAnnoField(mu.Map); !isAnno {
+					continue
+				}
+				// protected: every path to the write has tested THIS map non-nil (or read a non-empty value
+				// out of it), or has stored a fresh map into this very field
+				mapTerm := TermOf(mu.Map).String()
+				same := func(t *Term) bool { return t != nil && t.String() == mapTerm }
+				fresh := func(x ssa.Instruction) bool {
+					st, ok := x.(*ssa.Store)
+					if !ok {
+						return false
+					}
+					fa, ok := st.Addr.(*ssa.FieldAddr)
+					if !ok {
+						return false
+					}
+					if n, _ := FieldOf(fa); n != "Annotations" {
+						return false
+					}
+					if _, isMake := Forwarded(st.Val).(*ssa.MakeMap); !isMake {
+						return false
+					}
+					if TermOf(fa).String() == mapTerm || strings.TrimPrefix(TermOf(fa).String(), "&") == mapTerm {
+						return true
+					}
+					return false
+				}
+				// … or a fresh struct literal that carries a fresh map is stored at a prefix of the path
+				literalWithMap := map[ssa.Value]bool{}
+				for _, b2 := range fn.Blocks {
+					for _, in2 := range b2.Instrs {
+						st, ok := in2.(*ssa.Store)
+						if !ok {
+							continue
+						}
+						fa, ok := st.Addr.(*ssa.FieldAddr)
+						if !ok {
+							continue
+						}
+						if n, _ := FieldOf(fa); n != "Annotations" {
+							continue
+						}
+						if _, isMake := Forwarded(st.Val).(*ssa.MakeMap); !isMake {
+							continue
+						}
+						if al, isAlloc := fa.X.(*ssa.Alloc); isAlloc {
+							literalWithMap[al] = true
+						}
+					}
+				}
+				fresh0 := fresh
+				fresh = func(x ssa.Instruction) bool {
+					if fresh0(x) {
+						return true
+					}
+					st, ok := x.(*ssa.Store)
+					if !ok || !literalWithMap[st.Val] {
+						return false
+					}
+					at := strings.TrimPrefix(TermOf(st.Addr).String(), "&")
+					return strings.HasPrefix(mapTerm, at+".")
+				}
+				lookupOf := func(m M) M {
+					return func(t *Term) bool { return t.Op == "lookup" && len(t.Args) == 2 && m(t.Args[0]) }
+				}
+				existsFor := func(m M) FactM {
+					return FOr(FNotNil(m), FCmp("!=", MLen(m), MConst("0")), FCmp(">", MLen(m), MConst("0")),
+						FCmp("!=", lookupOf(m), MConst("")), FCmp(">", MLen(lookupOf(m)), MConst("0")), FCmp("!=", MLen(lookupOf(m)), MConst("0")))
+				}
+				exists := existsFor(same)
+				reach, _ := CanReach(Entry(fn), func(x ssa.Instruction) bool { return x == in }, ReachOpts{CutInstr: fresh, CutEdge: func(bb *ssa.BasicBlock, k int) bool {
+					return EdgeFactMatches(bb, k, exists)
+				}})
+				anyAnno := func(t *Term) bool {
+					return t != nil && (MField("Annotations")(t) || t.Any(MField("Annotations")) || t.Any(MCall("GetAnnotations")))
+				}
+				if reach && HasFact(FactsFor(fn).At(fn.Blocks[0]), existsFor(anyAnno)) {
+					reach = false // established by every caller (the callers speak of their own object)
+				}
+				c.Ob("R9.9", name+"#write("+TermOf(mu.Map).String()+")", mu.Pos(), !reach, "the annotations map is known to exist where it is written",
+					ifs(reach, "the write is reachable without a nil test of the map or a fresh map having been stored: an object whose annotations are absent (legal for every API object) makes this a write into a nil map — a panic in the worker, on every retry"))
+			}
+		}
+	}
 }
